@@ -515,6 +515,14 @@ func (s *pDKGStore) SaveCurrent(id string, st *dkg.DBState) error {
 	})
 }
 func (s *pDKGStore) SaveFinished(id string, st *dkg.DBState) error {
+	if e := s.n.e; e.keepIO && st != nil && st.KeyShare != nil && st.KeyShare.Share != nil {
+		// a share is a secret from the moment it exists, recorded or not
+		if b, err := st.KeyShare.Share.V.MarshalBinary(); err == nil {
+			e.stdoutMu.Lock()
+			e.oldShares = append(e.oldShares, oldShare{s.n.addr, b})
+			e.stdoutMu.Unlock()
+		}
+	}
 	if e := s.n.e; e.sc.CloseDKGDBAtFinish == s.n.idx+1 && st.Epoch >= 2 {
 		// storage fault: the database goes away just as the completed epoch is about to be recorded
 		_ = s.Store.Close()
